@@ -195,7 +195,7 @@ def search(run, info):
         "rule": "valid-by-construction units (enumerations, structures, subranges, arrays, function blocks with inputs/outputs/"
                 "instances and formal / positional calls, functions, programs, configurations with globals, externals and tasks; "
                 "all statement forms) must be accepted without any code; every documented Fails shape (P0003 P0004 P0005 P0006 "
-                "P0007 P0008 P0009 P0011 P0014 P0015 P0016 P0017 P0018 P0022) planted at every applicable site must be rejected "
+                "P0007 P0008 P0009 P0011 P0014 P0015 P0016 P0017 P0018 P0021 P0022 P0029) planted at every applicable site must be rejected "
                 "with that code; pairs of faults in different declarations must be rejected with one of the two codes; structure / "
                 "enumeration name lists and a subrange boundary sweep are compared with the Coq rule models; non-trivial = every "
                 "unit, distinct by text",
